@@ -2,7 +2,7 @@
 //! Real agents through the cluster kit: node 0 is the origin, node 1 receives the version in pieces
 //! (any cut, order, duplicates, overlaps, batching, mixed with other versions), node 2 receives the
 //! whole version at once as the reference.
-use crate::cluster::{Cluster, gen_stmt};
+use crate::cluster::{Cluster, gen_stmt_for};
 use crate::rng::Rng;
 use crate::runner::{CaseResult, Prop, Tier};
 
@@ -31,7 +31,7 @@ fn gen_ops(rng: &mut Rng, tier: Tier) -> Vec<String> {
     let pre = rng.range(0, 3);
     for _ in 0..pre {
         let node = rng.below(2);
-        ops.push(format!("nw {node} {}", gen_stmt(rng)));
+        ops.push(format!("nw {node} {}", gen_stmt_for(rng, 1)));
     }
     if rng.chance(1, 2) {
         ops.push("nsync 1 0 all".into());
